@@ -219,7 +219,7 @@ def _case(draw, reals=False, metrics=False):
         w = [1] * n
     case = {
         "y_true": yt, "y_pred": yp, "groups": groups, "w": [float(x) for x in w],
-        "scale": draw(st.sampled_from([0.5, 2.0, 3.0, 0.1, 7.25])),
+        "scale": draw(st.sampled_from([0.5, 2.0, 3.0, 0.1, 7.25, 1e-10, 1e6])),
         "kind": draw(st.sampled_from(["list", "ndarray", "series"])),
         "sf_kind": draw(st.sampled_from(["list", "ndarray", "series"])),
         "w_kind": draw(st.sampled_from(["list", "ndarray", "series", "ndarray2d"])),
